@@ -80,9 +80,9 @@ def main():
     finally:
         sh(["git", "-C", "/repo", "worktree", "remove", "--force", str(wt)])
         shutil.rmtree(wt, ignore_errors=True)
-    dest = VERIF / "seeded" / prop
+    dest = VERIF / "seeded" / (args[args.index("--dest") + 1] if "--dest" in args else prop)
     k = 1
-    while dest.exists() and "--overwrite" not in args:
+    while dest.exists() and "--overwrite" not in args and "--dest" not in args:
         k += 1
         dest = VERIF / "seeded" / f"{prop}-{k}"
     dest.mkdir(parents=True, exist_ok=True)
